@@ -97,9 +97,30 @@ func Finish(res *Result, m Meta) int {
 			a := m.Replayer(v)
 			b := m.Replayer(v)
 			if !contains(a, v.Signature) || !contains(b, v.Signature) {
-				fmt.Printf("HARNESS-ERROR property=%s violation %q did not reproduce on replay (%v / %v)\n", m.Property, v.Signature, a, b)
-				exit = 2
-				continue
+				// the path alone does not reproduce it.  The exploration is deterministic: if running the
+				// same shard again in a fresh process reports the same breach on the same path, the code
+				// under test keeps state outside the stores that a discarded branch (= a rejected
+				// transaction) does not take back.  Otherwise the harness itself is not reproducible.
+				again := false
+				if v.NShards > 0 {
+					if vs, err := RerunShard(m.Property, v.Tier, v.Shard, v.NShards); err == nil {
+						for _, x := range vs {
+							if x.Signature == v.Signature && strings.Join(x.Path, "|") == strings.Join(v.Path, "|") {
+								again = true
+							}
+						}
+					}
+				}
+				if !again {
+					fmt.Printf("HARNESS-ERROR property=%s violation %q did not reproduce on replay (%v / %v)\n", m.Property, v.Signature, a, b)
+					exit = 2
+					continue
+				}
+				v.ReplayMode = "exploration-order"
+				if v.Detail == nil {
+					v.Detail = map[string]any{}
+				}
+				v.Detail["replay_note"] = "not reproducible from its path on a fresh fixture, reproducible by re-running the exploration shard: the breach depends on state outside the stores left by a discarded branch (a rejected transaction)"
 			}
 		}
 		dir := filepath.Join(Root(), "replays")
